@@ -547,8 +547,10 @@ async def impl_coap(case):
         return "ok " + (" ".join(toks) if toks else ".")
 
     exits = {}
+    exit_wire = {}
     if case["stream"] != "limits" and len(case["iids"]) == len(case["datas"]):
         for name in ("read", "sub", "unsub", "write"):
+            n0 = len(seen)
             try:
                 if name == "read":
                     d = await conn.read_characteristics(list(ids))
@@ -563,9 +565,180 @@ async def impl_coap(case):
                 exits[name] = canon(d, name == "read")
             except Exception as e:  # noqa
                 exits[name] = exc_token(e) if not isinstance(e, IndexError) else "crash"
+            if name != "write":
+                exit_wire[name] = [hx(x) for x in seen[n0:]]
     out["exits"] = exits
+    out["exit_wire"] = exit_wire
     out["nreq"] = len(seen)
     return out
+
+
+# ---------------------------------------------------------------- CoAP: repeated ids, reactive accessory
+PATH_OPS = {"read": 3, "write": 2, "sub": 0x0B, "unsub": 0x0C}
+DUP_KINDS = ["okN", "ok0", "err", "wtid", "wctl"]
+DUP_ALPHA = [(1, 52), (1, 53), (2, 52)]          # (2, 52): another accessory sharing iid 52
+
+
+def dup_value(pos, iid):
+    return bytes([0xA0 + pos % 64, iid & 0xFF, (iid >> 8) & 0xFF, 0x11])
+
+
+def dup_write_value(pos, iid):
+    return bytes([0x50 + pos % 64, iid & 0xFF])
+
+
+def dup_answer(kind, pos, tid, iid):
+    """What the scripted accessory answers for the request PDU at wire position `pos`."""
+    tl = tlv_encode([(1, dup_value(pos, iid))])
+    if kind == "okN":
+        return (0x02, tid, 0, tl)
+    if kind == "ok0":
+        return (0x02, tid, 0, b"")
+    if kind == "err":
+        return (0x02, tid, 1 + pos % 6, b"")
+    if kind == "wtid":
+        return (0x02, (tid + 1) % 256, 0, tl)
+    if kind == "wctl":
+        return (0x00, tid, 0, tl)
+    raise ValueError(kind)
+
+
+def dup_expected(kind, pos, iid):
+    """Oracle: the outcome the controller must attribute to request position `pos`."""
+    if kind == "okN":
+        return "v:" + hx(dup_value(pos, iid))
+    if kind == "ok0":
+        return "v:-"
+    if kind == "err":
+        return f"s:{1 + pos % 6}"
+    return "s:256" if kind == "wtid" else "s:257"
+
+
+def gen_coap_dup(tier, r):
+    cases = []
+    # every id vector over a 3-key alphabet for n <= 4, with every {okN, err} outcome vector and two mixed ones
+    for n in range(1, 5):
+        for idv in itertools.product(DUP_ALPHA, repeat=n):
+            vecs = [list(v) for v in itertools.product(["okN", "err"], repeat=n)]
+            vecs.append([DUP_KINDS[(i + len(cases)) % 5] for i in range(n)])
+            vecs.append([DUP_KINDS[(2 * i + 1 + len(cases)) % 5] for i in range(n)])
+            for vec in vecs:
+                cases.append(dict(ids=list(idv), vec=vec, stream="dupids"))
+    # random longer ones: few distinct keys, many repeats
+    for _ in range(400 if tier == "quick" else 6000):
+        n = r.randrange(5, 13)
+        alpha = [(r.choice([1, 1, 2, 3]), r.choice([7, 52, 53, 255, 256, 65535])) for _ in range(r.choice([1, 2, 3, 4]))]
+        cases.append(dict(ids=[r.choice(alpha) for _ in range(n)], vec=[r.choice(DUP_KINDS) for _ in range(n)], stream="dupids-random"))
+    return cases
+
+
+def dict_canon(d):
+    toks = []
+    for k, v in sorted(d.items()):
+        if "status" in v:
+            toks.append(f"{k[0]}.{k[1]}=s:{-int(v['status'])}")
+        else:
+            toks.append(f"{k[0]}.{k[1]}=v:{hx(v['value'])}")
+    return "ok " + (" ".join(toks) if toks else ".")
+
+
+async def impl_coap_dup(case):
+    """read / write / subscribe / unsubscribe of a batch with repeated ids through the real connection methods;
+    the accessory answers each request PDU it actually receives according to its wire position."""
+    from aiohomekit.controller.coap.connection import CoAPHomeKitConnection, EncryptionContext
+
+    ids, vec, n = case["ids"], case["vec"], len(case["ids"])
+    log = []
+
+    async def post_bytes(payload, timeout=16.0):
+        payload = bytes(payload)
+        req = ref.coap_parse_request(payload)
+        items = [] if req is None else [dup_answer(vec[j] if j < n else "okN", j, tid, iid) for j, (_op, tid, iid, _d) in enumerate(req)]
+        resp = ref.coap_render_response(items)
+        log.append((payload, resp))
+        return resp
+
+    class Char:
+        def __init__(self):
+            self.value = None
+
+        @property
+        def raw_value(self):
+            return self.value
+
+    class Info:
+        def find_characteristic_by_iid(self, iid):
+            return None
+
+        def find_characteristic_by_aid_iid(self, aid, iid):
+            return Char()
+
+    ectx = object.__new__(EncryptionContext)
+    ectx.post_bytes = post_bytes
+    conn = object.__new__(CoAPHomeKitConnection)
+    conn.enc_ctx = ectx
+    conn.info = Info()
+    out = {}
+    for name in ("read", "sub", "unsub", "write"):
+        n0 = len(log)
+        try:
+            if name == "read":
+                d = await conn.read_characteristics(list(ids))
+            elif name == "sub":
+                d = await conn.subscribe_to(list(ids))
+            elif name == "unsub":
+                d = await conn.unsubscribe_from(list(ids))
+            else:
+                d = await conn.write_characteristics([(a, i, dup_write_value(p, i)) for p, (a, i) in enumerate(ids)])
+            tok = dict_canon(d)
+        except Exception as e:  # noqa
+            tok = "crash" if isinstance(e, IndexError) else exc_token(e)
+        out[name] = dict(result=tok, wire=[hx(q) for q, _ in log[n0:]], resp=[hx(a) for _, a in log[n0:]])
+    return out
+
+
+def dup_wire_expected(case, name):
+    return [(PATH_OPS[name], i, iid, tlv_encode([(1, dup_write_value(i, iid))]) if name == "write" else b"")
+            for i, (_aid, iid) in enumerate(case["ids"])]
+
+
+def oracle_coap_dup(case, out):
+    """Position i of the request is paired with what the accessory answered for position i; the accessory is asked
+    exactly the requested positions, in order.  A Python dict holds one entry per (aid, iid): for a repeated key the
+    read result carries the outcome of its LAST position; the error-only results (write / subscribe / unsubscribe)
+    carry the status of its last FAILED position and no entry for keys none of whose positions failed."""
+    bad = []
+    ids, vec = case["ids"], case["vec"]
+    exp = [dup_expected(vec[i], i, ids[i][1]) for i in range(len(ids))]
+    for name, o in out.items():
+        got_w = [ref.coap_parse_request(unhx(w)) for w in o["wire"]]
+        if got_w != [dup_wire_expected(case, name)]:
+            bad.append((f"coap-ids:{name}-wire", f"{name} of ids {ids}: the accessory is asked "
+                        f"{[None if g is None else [(t, i) for _o, t, i, _d in g] for g in got_w]} (tid, iid) instead of one batch "
+                        f"with position i = (tid i, iid of ids[i])"))
+        d = {}
+        for i, k in enumerate(ids):
+            if name == "read" or exp[i].startswith("s:"):
+                d[tuple(k)] = exp[i]
+        want = "ok " + (" ".join(f"{k[0]}.{k[1]}={v}" for k, v in sorted(d.items())) if d else ".")
+        if o["result"] != want:
+            bad.append((f"coap-ids:{name}-misattributed", f"{name} of ids {ids} with per-position outcomes {vec}: result "
+                        f"{o['result'][:160]} (want {want[:160]})"))
+    return bad
+
+
+def model_pairs_canon(ans, ids):
+    """model 'ok k=r ..' (ordered pairs over positions) -> dict semantics: a later pair for an equal key wins."""
+    if not ans.startswith("ok"):
+        return ans
+    d = {}
+    for tok in ans.split(" ")[1:]:
+        if tok == ".":
+            continue
+        k, rr = tok.split("=")
+        key = tuple(ids[int(k)])
+        d[key] = rr if rr.startswith("s:") else "v:" + hx(tlv_value(unhx(rr[2:])))
+    return "ok " + (" ".join(f"{k[0]}.{k[1]}={v}" for k, v in sorted(d.items())) if d else ".")
 
 
 def model_exit_canon(ans, case, read):
@@ -634,6 +807,12 @@ def oracle_coap(case, out):
             slug = "coap-decode:batch-raises"
         bad.append((slug, f"outcomes {case['vec']}: post_all returns {out['results'][:120]} (want {want[:120]})"))
     # exits: key ids[i] carries outcome i (last wins for duplicate keys)
+    for name, wires in out.get("exit_wire", {}).items():
+        want_w = [(PATH_OPS[name], i, case["iids"][i], b"") for i in range(n)]
+        got_w = [ref.coap_parse_request(unhx(w)) for w in wires]
+        if got_w != [want_w]:
+            bad.append((f"coap-ids:{name}-wire", f"{name} of ids {case['iids']}: the accessory is asked {str(got_w)[:160]} "
+                        f"instead of one batch with position i = (tid i, iid_i)"))
     for name, got in out["exits"].items():
         allv = name == "read"
         if allv and not all(body_decodable(v) for k, v in exp if k == "body"):
@@ -796,17 +975,64 @@ def _run(ctx, tier, seed):
             for k in c["vec"]:
                 cov.hist["coap_item_kind"][k] += 1
 
+    # ---- coap, repeated ids against a reactive accessory
+    dup_cases = gen_coap_dup(tier, rng(seed, "c17dup"))
+
+    async def all_dup():
+        return [await impl_coap_dup(c) for c in dup_cases]
+    douts = asyncio.run(all_dup())
+    names = ("read", "sub", "unsub", "write")
+    l_enc, l_dec = [], []
+    for c, o in zip(dup_cases, douts):
+        for nm in names:
+            want = dup_wire_expected(c, nm)
+            l_enc.append(f"cenc {PATH_OPS[nm]} {','.join(str(w[2]) for w in want)} {','.join(hx(w[3]) for w in want)}")
+            l_dec.append(f"cdec 0 {o[nm]['resp'][0] if o[nm]['resp'] else '-'}")
+    m_enc, m_dec = drv.batch(l_enc), drv.batch(l_dec)
+    l_exit = [f"cexit {'all' if nm == 'read' else 'err'} {len(c['ids'])} {m_dec[4 * ci + ni][3:]}" if m_dec[4 * ci + ni].startswith("ok") else "bad"
+              for ci, c in enumerate(dup_cases) for ni, nm in enumerate(names)]
+    m_exit = drv.batch(l_exit)
+    for ci, (c, o) in enumerate(zip(dup_cases, douts)):
+        desc = dict(stream=c["stream"], ids=c["ids"], per_position_outcomes=c["vec"],
+                    accessory="answers wire position j with value a0+j|iid (okN), empty (ok0), status 1+j%6 (err), tid+1 (wtid), control 0 (wctl)")
+        orc = oracle_coap_dup(c, o)
+        for slug, text in orc:
+            add_v(slug, text, True, case=desc, impl={k: v for k, v in o.items()})
+        for ni, nm in enumerate(names):
+            j = 4 * ci + ni
+            wire = ("ok " + o[nm]["wire"][0]) if len(o[nm]["wire"]) == 1 else f"{len(o[nm]['wire'])} requests"
+            if wire != m_enc[j] and not any(sl == f"coap-ids:{nm}-wire" for sl, _ in orc):
+                add_v(f"coap-ids:{nm}-wire:model-mismatch", f"{nm} of ids {c['ids']}: sent {wire[:100]} != model {m_enc[j][:100]}", False,
+                      case=desc, impl=wire[:1000], model=m_enc[j][:1000],
+                      broken="correspondence Model/Pdu.v coap_encode_all <-> coap/connection.py request construction")
+            mm = model_pairs_canon(m_exit[j], c["ids"]) if m_dec[j].startswith("ok") else m_dec[j]
+            if o[nm]["result"] != mm and not any(sl.startswith(f"coap-ids:{nm}") for sl, _ in orc):
+                add_v(f"coap-ids:{nm}:model-mismatch", f"{nm} of ids {c['ids']}: {o[nm]['result'][:100]} != model {mm[:100]}", False,
+                      case=desc, impl=o[nm]["result"][:1000], model=mm[:1000],
+                      broken="correspondence Model/Pdu.v coap_decode_all + zip_results <-> coap/connection.py")
+        nrep = len(c["ids"]) - len(set(map(tuple, c["ids"])))
+        iid_rep = len(c["ids"]) - len({k[1] for k in c["ids"]})
+        cov.case(f"u{c['ids']},{c['vec']}", True,
+                 sample=dict(stream="coap:" + c["stream"], ids=c["ids"], outcomes=c["vec"], read=o["read"]["result"][:80]) if ci % 1501 == 7 else None,
+                 dup_n=len(c["ids"]), dup_repeated_keys=min(nrep, 4), dup_repeated_iids=min(iid_rep, 4),
+                 dup_repeat_followed=any(c["ids"][i][1] in [k[1] for k in c["ids"][:i]] and i + 1 < len(c["ids"]) for i in range(len(c["ids"]))))
+
     cov.extra["exhaustive"] = True
     cov.extra["exhaustive_part"] = (
         "ble request: every fragment size 8..64 x every body length 0..200, each plain and under ChaCha20-Poly1305 keys "
         "(body content is a fixed pattern: the code is content independent); ble response: every composition of bodies of "
         f"length 0..{9 if tier == 'quick' else 13} into fragments, every <=3-piece cut up to {24 if tier == 'quick' else 40} bytes, every position x 3 deltas of a "
         "wrong tid and every position of a missing flag in every fragmentation of 4- and 6-byte bodies, all 256 continuation "
-        f"control bytes; coap: every outcome vector over {{ok0, okN, err, errB, wrong-tid, wrong-control}} for n = 1..{5 if tier == 'quick' else 6}"
+        "control bytes; coap ids: every id vector over {(1,52),(1,53),(2,52)} for n = 1..4 x every {okN,err} outcome vector "
+        "(+2 mixed) through read/write/subscribe/unsubscribe against an accessory that answers per wire position; "
+        f"coap: every outcome vector over {{ok0, okN, err, errB, wrong-tid, wrong-control}} for n = 1..{5 if tier == 'quick' else 6}"
         + (" and over 5 kinds for n = 6" if tier == "quick" else ""))
     cov.extra["domain"] = ("oracle claims: BLE requests with fs >= 8, body <= 65535 bytes, iid <= 65535; responses whose first fragment "
                            "carries the 5-byte header and whose status byte is 0..6; CoAP items with status 0..6 (an undefined status "
                            "byte makes PDUStatus() raise ValueError for the whole batch: compared with the model only, not claimed)")
+    cov.extra["duplicate_id_semantics"] = ("a result dict holds one entry per (aid, iid): for a repeated key the read result is compared with the "
+                                           "outcome of the key's LAST position, the error-only results (write/subscribe/unsubscribe) with the status "
+                                           "of its last FAILED position; the wire must carry every requested position (count and order)")
     cov.extra["violation_counts"] = dict(per_key)
     cov.extra["trusted_base_extra"] = ["harness/ref/hap_pdu.py (spec accessory, response fragmenter, CoAP batch renderer) and "
                                        "cryptography's ChaCha20Poly1305 as the accessory-side AEAD"]
